@@ -21,6 +21,7 @@ from typing import (
 from typing_extensions import NotRequired, TypedDict
 
 __all__ = [
+    "TDk",
     "Rev", "Fwd", "IntKeyed", "LS", "KT", "VT",
     "kwmap_int", "kwmap_str", "seq_int", "seq_str",
     "A", "B", "C", "D", "G", "E", "IE", "N", "TD", "TDp", "TDn", "HasX", "SupportsClose",
@@ -302,3 +303,10 @@ class IntKeyed(Dict[int, VT]):
 class LS(List[T]):
     def __repr__(self):
         return f"LS({list.__repr__(self)})"
+
+
+class TDk(TypedDict):
+    """Keys that no generated parameter is called."""
+
+    kx: int
+    ky: str
